@@ -10,6 +10,7 @@ import (
 	_ "verifharness/assoc"
 	_ "verifharness/bind"
 	_ "verifharness/c17"
+	_ "verifharness/cc"
 	_ "verifharness/cond"
 	_ "verifharness/conv"
 	_ "verifharness/handles"
